@@ -1628,6 +1628,8 @@ func getQuotedSymbol(expr *SexpPair) (*SexpSymbol, error) {
 func (gen *Generator) GenerateReturn(xs []Sexp) error {
 	n := len(xs)
 	if n == 0 {
+		// a bare (return) is an expression too: its value is nil
+		gen.AddInstruction(PushInstr{SexpNull})
 		return nil
 	}
 
